@@ -128,6 +128,57 @@ def _segment(chk, repo, folder, ff, fr):
     for c in find_calls(w.node, "self.send"):
         g = [(fw.norm(e), p) for e, p in fw.facts_at(fw.stmt_of(c))]
         end_kw = any(k.arg == "end" and folder.try_fold(k.value, fw.scope, None) is True for k in c.keywords)
+        end_name = next((k.value.id for k in c.keywords if k.arg == "end" and isinstance(k.value, ast.Name)), None)
+        if end_name is not None:
+            # one call for both cases, `end` being a local that holds the "declared size reached" predicate: the end case holds by
+            # construction; for the other case the facts at the call, with that local false, must force a full segment
+            d_end = fw.one_def(end_name)
+            reached = d_end is not None and fw.canon(src(d_end)) in (fw.canon("self.size is not None and self.pos + len(b[0:7]) >= self.size"),
+                                                                      fw.canon("self.size is not None and self.pos + len(data) >= self.size"))
+            chk.check(reached, "R2", f"{CL}:{C}.write | end when the declared size is reached", w.loc(c), f"send(end={end_name}) with {end_name} = {src(d_end) if d_end is not None else '?'}")
+            short = {"len(b[0:7]) < 7", "len(data) < 7"}
+            facts_raw = fw.facts_at(fw.stmt_of(c))
+
+            def val(e, env):
+                if isinstance(e, ast.BoolOp):
+                    vs = [val(v, env) for v in e.values]
+                    return all(vs) if isinstance(e.op, ast.And) else any(vs)
+                if isinstance(e, ast.UnaryOp) and isinstance(e.op, ast.Not):
+                    return not val(e.operand, env)
+                t_ = src(e)
+                if t_ == end_name:
+                    return env["end"]
+                if t_ in short:
+                    return env["short"]
+                if t_ in ("len(b[0:7]) >= 7", "len(data) >= 7", "len(data) == 7", "len(b[0:7]) == 7"):
+                    return not env["short"]
+                return env.setdefault(t_, True)        # unrelated atoms: true for the path considered (see below)
+            # a short middle segment (end false, short true) must contradict the facts whatever the unrelated atoms are
+            feasible = False
+            import itertools
+            leafs = set()
+
+            def leaves_of(e):
+                if isinstance(e, ast.BoolOp):
+                    for v in e.values:
+                        leaves_of(v)
+                elif isinstance(e, ast.UnaryOp) and isinstance(e.op, ast.Not):
+                    leaves_of(e.operand)
+                else:
+                    leafs.add(src(e))
+            for e, _p in facts_raw:
+                leaves_of(e)
+            free = sorted(leafs - short - {end_name, "len(b[0:7]) >= 7", "len(data) >= 7", "len(data) == 7", "len(b[0:7]) == 7"})
+            if len(free) <= 8:
+                for combo in itertools.product([False, True], repeat=len(free)):
+                    env = dict(zip(free, combo), end=False, short=True)
+                    if all(val(e, env) == p_ for e, p_ in facts_raw):
+                        feasible = True
+                        break
+                chk.check(not feasible, "R2", f"{CL}:{C}.write | only full segments mid-transfer", w.loc(c), f"send(end={end_name}) of a short middle segment is possible under {g}")
+            else:
+                chk.unk("R2", f"{CL}:{C}.write | only full segments mid-transfer", w.loc(c), f"too many conditions at the call: {g}")
+            continue
         if end_kw:
             ok = ("self.size is not None", True) in g and any(p and t in (fw.canon("self.pos + len(b[0:7]) >= self.size"), fw.canon("self.pos + len(data) >= self.size")) for t, p in g)
             chk.check(ok, "R2", f"{CL}:{C}.write | end when the declared size is reached", w.loc(c), f"send(end=True) under {g}")
